@@ -8,8 +8,8 @@ from checks.common import swarm, ExcA, ExcC
 
 ID = 'C18'
 LEVEL = 'exploration'
-NEEDS = ('threads', 'aio')  # + 'proc' for the named-pipe transport
-PROC_READY = False
+NEEDS = ('threads', 'aio', 'proc')
+PROC_READY = True
 QUICK = dict(runs=2500, wall=85)
 THOROUGH = dict(runs=150000, wall=1500)
 RULE = ('socket: real SocketServer.serve() in one simulated thread/loop, real SocketClient (its executor thread and loop), 1-4 connections, '
@@ -55,7 +55,22 @@ def mk_payload(p):
     return seq
 
 
+def gen_pipe(rng):
+    def objs():
+        out = []
+        for _ in range(rng.choice([1, 3, 6, 12])):
+            k = rng.choice(['int', 'str', 'bytes', 'nested', 'big'])
+            out.append({'kind': k, 'size': rng.choice([0, 10, 16000, 16384, 16385, 20000, 70000]) if k in ('bytes', 'big', 'str') else 3})
+        return out
+    sc = {'transport': 'pipe', 'to_client': objs(), 'to_server': objs(), 'concurrent': rng.random() < 0.6,
+          'use_bytes_api': rng.random() < 0.3}
+    cfg = swarm(rng, racy=0.1, line=0.2, max_time=300.0, max_steps=2_000_000, pipe_cap=rng.choice([512, 4096, 65536]), p_short_io=rng.choice([0.3, 0.7]))
+    return {'scenario': sc, 'sim': cfg}
+
+
 def gen(rng, tier):
+    if PROC_READY and rng.random() < 0.25:
+        return gen_pipe(rng)
     seqs = iter(range(1, 10000))
     threads = []
     for ti in range(rng.choice([1, 2, 3, 4])):
@@ -76,6 +91,13 @@ def gen(rng, tier):
 
 
 def shrink(sc):
+    if sc.get('transport') == 'pipe':
+        for key in ('to_client', 'to_server'):
+            for i in range(len(sc[key])):
+                yield dict(sc, **{key: sc[key][:i] + sc[key][i + 1:]})
+        if sc['concurrent']:
+            yield dict(sc, concurrent=False)
+        return
     ts = sc['threads']
     for i in range(len(ts)):
         if len(ts) > 1:
@@ -92,7 +114,9 @@ def shrink(sc):
 
 
 def tags(sim, sc, obs):
-    t = ['connections:%d' % sc['nconn']]
+    if sc.get('transport') == 'pipe':
+        return ['transport:pipe', 'pipe_cap:%d' % sim.cfg.get('pipe_cap', 0)] + sorted(set('pipe-object:' + o['kind'] for o in sc['to_client'] + sc['to_server']))
+    t = ['transport:socket', 'connections:%d' % sc['nconn']]
     for th in sc['threads']:
         for op in th['ops']:
             for p in ([op['p']] if op['op'] == 'request' else op['ps']):
@@ -101,19 +125,119 @@ def tags(sim, sc, obs):
 
 
 def nontrivial(sim, sc, obs):
+    if sc.get('transport') == 'pipe':
+        return sim.max_runnable >= 2 and (sim.counters.get('short_read', 0) + sim.counters.get('short_write', 0)) > 0
     return sim.max_runnable >= 2 and sim.counters.get('net_fragmented_writes', 0) > 0
+
+
+def pipe_obj(o, i, direction):
+    k, size = o['kind'], o['size']
+    if k == 'int':
+        return i
+    if k == 'str':
+        return '%s%d:' % (direction, i) + 's' * size
+    if k == 'bytes':
+        return bytes((j * 3 + i) % 251 for j in range(min(size, 1024))) * (size // 1024 + 1) if size else b''
+    if k == 'nested':
+        return {'i': i, 'd': direction, 'l': [1, (2, 3), b'\n' * 3]}
+    return [direction, i, 'b' * size]
+
+
+def pipe_client_proc(path, sc):
+    """runs in a simulated process: receives what the server sends, sends its own objects back (concurrently if asked)"""
+    import threading
+    from mpservice.pipe import Client
+    c = Client(path)
+    got = []
+
+    def sender():
+        for i, o in enumerate(sc['to_server']):
+            x = pipe_obj(o, i, 'S')
+            if sc['use_bytes_api'] and isinstance(x, bytes):
+                c.send_bytes(x)
+            else:
+                c.send(x)
+
+    th = None
+    if sc['concurrent']:
+        th = threading.Thread(target=sender, name='harness-pipe-client-sender')
+        th.start()
+    for i, o in enumerate(sc['to_client']):
+        x = pipe_obj(o, i, 'C')
+        if sc['use_bytes_api'] and isinstance(x, bytes):
+            got.append(c.recv_bytes())
+        else:
+            got.append(c.recv())
+    if th is None:
+        sender()
+    else:
+        th.join()
+    # stay alive until the peer has read everything: a FIFO whose last descriptor is closed discards what is still buffered
+    # (kernel behaviour, not a property of the transport)
+    if c.recv() != 'HARNESS-DONE':
+        got.append('BAD-HANDSHAKE')
+    return got
+
+
+def run_pipe(sim, sc):
+    import threading
+    from mpservice.multiprocessing import Process
+    from mpservice.pipe import Server
+    path = '/sim/fifo/p%d' % 1
+    srv = Server(path)
+    p = Process(target=pipe_client_proc, args=(path, sc), name='harness-pipe-client')
+    p.start()
+    got = []
+
+    def receiver():
+        for i, o in enumerate(sc['to_server']):
+            x = pipe_obj(o, i, 'S')
+            if sc['use_bytes_api'] and isinstance(x, bytes):
+                got.append(srv.recv_bytes())
+            else:
+                got.append(srv.recv())
+
+    th = threading.Thread(target=receiver, name='harness-pipe-server-receiver', daemon=True)
+    th.start()
+    for i, o in enumerate(sc['to_client']):
+        x = pipe_obj(o, i, 'C')
+        if sc['use_bytes_api'] and isinstance(x, bytes):
+            srv.send_bytes(x)
+        else:
+            srv.send(x)
+    th.join(200)
+    if th.is_alive():
+        sim.violation('pipe:server-did-not-receive-everything', {'received': len(got), 'expected': len(sc['to_server'])})
+        return {}
+    srv.send('HARNESS-DONE')
+    try:
+        client_got = p.result(timeout=200)
+    except Exception as e:
+        sim.violation('pipe:client-failed', {'exc': repr(e)[:300]})
+        return {}
+    want_c = [pipe_obj(o, i, 'C') for i, o in enumerate(sc['to_client'])]
+    want_s = [pipe_obj(o, i, 'S') for i, o in enumerate(sc['to_server'])]
+    for name, g, w in (('to-client', client_got, want_c), ('to-server', got, want_s)):
+        if len(g) != len(w) or any(not _same(a, b) for a, b in zip(g, w)):
+            order = sorted(map(repr, g)) == sorted(map(repr, w))
+            sim.violation('pipe:%s:%s' % (name, 'objects-out-of-order' if order else 'objects-not-intact'),
+                          {'got': [repr(x)[:40] for x in g], 'want': [repr(x)[:40] for x in w]})
+    return {'n': len(got) + len(client_got)}
 
 
 LAT = {}
 
 
 def run(sim, sc):
+    if sc.get('transport') == 'pipe':
+        return run_pipe(sim, sc)
     from mpservice.socket import SocketApplication, SocketServer, SocketClient
     from sim import aio
     aio.install_net()
     aio.LISTENERS.clear()
     aio.NetCfg.frag = sc['frag']
-    d = '/tmp/verif-sock-%d' % os.getpid()
+    from sim import osproc
+    d = '/tmp/verif-sock-%d' % osproc._real_getpid()  # the real pid: os.getpid() answers with the simulated pid inside a run
     os.makedirs(d, exist_ok=True)
     path = d + '/s'
     lat_of = {}
